@@ -138,3 +138,101 @@ Theorem hex_key_order a b : 0 <= a < 2 ^ 64 -> 0 <= b < 2 ^ 64 -> str_ltb (hexw 
 Proof.
   intros Ha Hb. change (2 ^ 64) with (16 ^ Z.of_nat 16) in *. destruct (hexw_order 16 a b Ha Hb) as [O _]. exact O.
 Qed.
+
+(* ---------- all signs together ---------- *)
+(* a canonical binary64 number: zero, or a mantissa below 2^53 with a normal exponent *)
+Definition canon (m e : Z) : Prop :=
+  m = 0 \/ (0 < Z.abs m < 2 * P52 /\ -1022 <= Z.log2 (Z.abs m) + e <= 1023).
+
+(* the scale S lies below every exponent involved (no constraint from a zero) *)
+Definition scale_ok (S m e : Z) : Prop := m = 0 \/ (S <= e /\ S <= Z.log2 (Z.abs m) + e - 52).
+
+Lemma num_key_zero e : num_key 0 e = 2 ^ 63.
+Proof. reflexivity. Qed.
+
+Lemma num_key_pos_range m e : 0 < m < 2 * P52 -> -1022 <= Z.log2 m + e <= 1023 -> 2 ^ 63 < num_key m e < 2 ^ 64.
+Proof.
+  intros H R. pose proof (dbl_bits_range m e H R) as B. unfold num_key.
+  destruct (m =? 0) eqn:Z1; [apply Z.eqb_eq in Z1; lia|]. destruct (0 <? m) eqn:P1; [|apply Z.ltb_ge in P1; lia].
+  change (2 ^ 64) with (2 ^ 63 + 2 ^ 63). lia.
+Qed.
+
+Lemma num_key_neg_range m e : 0 < m < 2 * P52 -> -1022 <= Z.log2 m + e <= 1023 -> 0 <= num_key (- m) e < 2 ^ 63.
+Proof.
+  intros H R. pose proof (dbl_bits_range m e H R) as B. unfold num_key.
+  destruct (- m =? 0) eqn:Z1; [apply Z.eqb_eq in Z1; lia|]. destruct (0 <? - m) eqn:P1; [apply Z.ltb_lt in P1; lia|].
+  rewrite Z.opp_involutive. lia.
+Qed.
+
+Lemma pow2_pos a : 0 <= a -> 0 < 2 ^ a.
+Proof. intros H. apply Z.pow_pos_nonneg; lia. Qed.
+
+(* the key orders exactly like the numbers, whatever their signs *)
+Theorem num_key_order_all m e m' e' S :
+  canon m e -> canon m' e' -> scale_ok S m e -> scale_ok S m' e' ->
+  S <= e -> S <= e' ->
+  (m * 2 ^ (e - S) < m' * 2 ^ (e' - S) <-> num_key m e < num_key m' e').
+Proof.
+  intros C C' K K' SE SE'.
+  assert (Pa : 0 < 2 ^ (e - S)) by (apply pow2_pos; lia).
+  assert (Pb : 0 < 2 ^ (e' - S)) by (apply pow2_pos; lia).
+  destruct (Z.lt_trichotomy m 0) as [N|[Z0|P]]; destruct (Z.lt_trichotomy m' 0) as [N'|[Z0'|P']].
+  - (* negative, negative *)
+    destruct C as [C|[C1 C2]]; [lia|]. destruct C' as [C'|[C1' C2']]; [lia|].
+    destruct K as [K|[K1 K2]]; [lia|]. destruct K' as [K'|[K1' K2']]; [lia|].
+    rewrite (Z.abs_neq m) in * by lia. rewrite (Z.abs_neq m') in * by lia.
+    pose proof (num_key_monotone_neg (- m) e (- m') e' S C1 C1' K1 K1' K2 K2') as H.
+    rewrite !Z.opp_involutive in H. rewrite <- H. rewrite !Z.mul_opp_l. lia.
+  - (* negative, zero *)
+    subst m'. destruct C as [C|[C1 C2]]; [lia|]. rewrite (Z.abs_neq m) in * by lia.
+    pose proof (num_key_neg_range (- m) e C1 C2) as R. rewrite Z.opp_involutive in R. rewrite num_key_zero.
+    split; [intros _; lia|intros _; nia].
+  - (* negative, positive *)
+    destruct C as [C|[C1 C2]]; [lia|]. destruct C' as [C'|[C1' C2']]; [lia|].
+    rewrite (Z.abs_neq m) in * by lia. rewrite (Z.abs_eq m') in * by lia.
+    pose proof (num_key_neg_range (- m) e C1 C2) as R. rewrite Z.opp_involutive in R.
+    pose proof (num_key_pos_range m' e' C1' C2') as R'.
+    split; [intros _; lia|intros _; nia].
+  - (* zero, negative *)
+    subst m. destruct C' as [C'|[C1' C2']]; [lia|]. rewrite (Z.abs_neq m') in * by lia.
+    pose proof (num_key_neg_range (- m') e' C1' C2') as R. rewrite Z.opp_involutive in R. rewrite num_key_zero.
+    split; [intros H; nia|intros H; lia].
+  - subst m m'. rewrite !num_key_zero. lia.
+  - subst m. destruct C' as [C'|[C1' C2']]; [lia|]. rewrite (Z.abs_eq m') in * by lia.
+    pose proof (num_key_pos_range m' e' C1' C2') as R'. rewrite num_key_zero.
+    split; [intros _; lia|intros _; nia].
+  - (* positive, negative *)
+    destruct C as [C|[C1 C2]]; [lia|]. destruct C' as [C'|[C1' C2']]; [lia|].
+    rewrite (Z.abs_eq m) in * by lia. rewrite (Z.abs_neq m') in * by lia.
+    pose proof (num_key_pos_range m e C1 C2) as R.
+    pose proof (num_key_neg_range (- m') e' C1' C2') as R'. rewrite Z.opp_involutive in R'.
+    split; [intros H; nia|intros H; lia].
+  - subst m'. destruct C as [C|[C1 C2]]; [lia|]. rewrite (Z.abs_eq m) in * by lia.
+    pose proof (num_key_pos_range m e C1 C2) as R. rewrite num_key_zero.
+    split; [intros H; nia|intros H; lia].
+  - (* positive, positive *)
+    destruct C as [C|[C1 C2]]; [lia|]. destruct C' as [C'|[C1' C2']]; [lia|].
+    destruct K as [K|[K1 K2]]; [lia|]. destruct K' as [K'|[K1' K2']]; [lia|].
+    rewrite (Z.abs_eq m) in * by lia. rewrite (Z.abs_eq m') in * by lia.
+    apply num_key_monotone_pos; assumption.
+Qed.
+
+Lemma num_key_range m e : canon m e -> 0 <= num_key m e < 2 ^ 64.
+Proof.
+  intros [->|[C1 C2]]; [rewrite num_key_zero; split; [lia|reflexivity]|].
+  destruct (Z.lt_trichotomy m 0) as [N|[Z0|P]].
+  - rewrite (Z.abs_neq m) in * by lia. pose proof (num_key_neg_range (- m) e C1 C2) as R.
+    rewrite Z.opp_involutive in R. change (2 ^ 64) with (2 ^ 63 + 2 ^ 63). lia.
+  - subst. simpl in C1. lia.
+  - rewrite (Z.abs_eq m) in * by lia. pose proof (num_key_pos_range m e C1 C2). lia.
+Qed.
+
+(* the text key of a numeric field (16 hex digits) compares like the numbers *)
+Theorem numeric_text_key_order m e m' e' S :
+  canon m e -> canon m' e' -> scale_ok S m e -> scale_ok S m' e' -> S <= e -> S <= e' ->
+  (str_ltb (hexw 16 (num_key m e)) (hexw 16 (num_key m' e')) = true <-> m * 2 ^ (e - S) < m' * 2 ^ (e' - S)).
+Proof.
+  intros C C' K K' SE SE'.
+  rewrite (hex_key_order _ _ (num_key_range m e C) (num_key_range m' e' C')).
+  rewrite Z.ltb_lt. symmetry. apply num_key_order_all; assumption.
+Qed.
